@@ -305,15 +305,12 @@ def outerRev [Mul α] [OfNat α 0] (a b : List α) : Img α :=
 def outer [Mul α] [OfNat α 0] (a b : List α) : Img α :=
   tab2 a.length b.length fun i j => getN a i * getN b j
 
-/-- `y[:a] += y[b:b+a]` along rows, in place.  When `0 < b < a` source and destination
-overlap.  torch refuses the operation when it can *see* the partial overlap, which it only
-checks for operands that are dense in memory (`dense`: the row slices of a tensor with a
-single batch item and channel); otherwise it processes the rows in increasing address order,
-and as every source row `b+k` lies after its destination `k` the sources are read before they
-are written: the result is that of evaluating the right-hand side first.  (Both behaviours are
-validated by the correspondence on images smaller than the filter.) -/
-def foldAddInPlaceRows [Add α] [OfNat α 0] (dense : Bool) (y : Img α) (a b : Nat) : Option (Img α) :=
-  if dense ∧ 0 < b ∧ b < a then none else
+/-- `y[:a] = y[:a] + y[b:b+a]` along rows: the right-hand side is evaluated first (the code builds the sum out of place, as the
+separable `afb1d` / `sfb1d` do), so overlapping source and destination rows (`0 < b < a`, images smaller than the filter)
+are no special case.  (Until the repair "fix: afb2d_nonsep / sfb2d_nonsep raised ... in periodization mode" the code used an
+in-place `+=`, which torch refuses when it can see the partial overlap; the parameter `dense` — the output tensor has a
+single batch item and channel — told the model when that happened and is kept for the driver's interface only.) -/
+def foldAddInPlaceRows [Add α] [OfNat α 0] (_dense : Bool) (y : Img α) (a b : Nat) : Option (Img α) :=
   some (tab y.length fun k => if k < a then vadd (y.getD k []) (y.getD (b + k) []) else y.getD k [])
 
 def foldAddInPlaceCols [Add α] [OfNat α 0] (y : Img α) (a b : Nat) : Option (Img α) :=
